@@ -196,8 +196,10 @@ def emit_case(c) -> str:
             clist([_fdesc(f) for f in c["p"]["funcs"]]), aop_lit(c["rw"]), cbool(c["side"]), amut_lit(c["mut"]),
             call(c["callA"]), call(c["callB"])))
     if k == "rewrite":
+        mi = c.get("mapin")
+        mlit = "None" if not mi else f"(Some ({_alist(mi[0])}, {_alist(mi[1])}))"
         return (f"(CRewrite {pipegen.pipeline_lit(c['p'])} {clist([op_lit(o) for o in c['ops']])} "
-                f"{clist([call_lit(x) for x in c['calls']])})")
+                f"{clist([call_lit(x) for x in c['calls']])} {mlit})")
     if k == "aliasmap":
         return ("(CAliasMap (acs %s %s %s))" % (clist([_m_func(f) for f in c["req"]["funcs"]]), mop_lit(c["rw"]),
                                                 cbool(c["side"])))
@@ -340,6 +342,15 @@ def _call(pl, logs, o, kw):
     return [r, sorted(x for lg in logs for x in lg.read())]
 
 
+def _map_all(pl, inputs):
+    """Pipeline.map on inputs for all root arguments: [name, value] of every output, sorted by name."""
+    try:
+        r = pl.map(dict(inputs), run_folder=None, storage="dict", parallel=False)
+        return Ok([[o, canon(r[o].output)] for o in sorted(pl.all_output_names)])
+    except Exception as e:  # noqa: BLE001
+        return Err(e)
+
+
 def run_impl(c):
     k = c["kind"]
     with _quiet(), warnings.catch_warnings():
@@ -352,13 +363,16 @@ def run_impl(c):
                 return ["bad-case"]
             status, structs, pl = apply_ops(b1.pipeline, c["ops"])
             if pl is None:
-                return [status, structs, []]
+                return [status, structs, [], []]
             logs1 = find_logs(pl)
             obs = []
             for x in c["calls"]:
                 obs.append(_call(b0.pipeline, [b0.log], x["o0"], dict(x["kw0"]))
                            + _call(pl, logs1, x["o1"], _kwargs1(x["kw1"])))
-            return [status, structs, obs]
+            mobs = []
+            if c.get("mapin"):
+                mobs = [_map_all(b0.pipeline, c["mapin"][0]), _map_all(pl, c["mapin"][1])]
+            return [status, structs, obs, mobs]
         if k == "map":
             return _run_map_case(c)
         if k == "alias":
@@ -847,7 +861,8 @@ def gen_rewrite_case(rng, tier):
     if rng.random() < 0.03:
         pd = _shared_dependency_pipeline(rng)
         o = rng.choice(["o3", "o3", "o4"]) if any(f["name"] == "f4" for f in pd["funcs"]) else "o3"
-        return {"kind": "rewrite", "p": pd, "ops": [{"op": "simplify", "o": o, "cons": rng.random() < 0.5}], "calls": []}
+        return {"kind": "rewrite", "p": pd, "ops": [{"op": "simplify", "o": o, "cons": rng.random() < 0.5}], "calls": [],
+                "mapin": None}
     pd = pipegen.gen_pipeline(rng, nmax=5, nmin=1 if rng.random() < 0.1 else 2)
     with _quiet(), warnings.catch_warnings():
         warnings.simplefilter("ignore")
@@ -888,7 +903,18 @@ def gen_rewrite_case(rng, tier):
             rens.append(r)
         rho = _Rho(names0, rens)
         calls = _gen_calls(rng, b0, pl, rho, tier) if ok else []
-    return {"kind": "rewrite", "p": pd, "ops": ops, "calls": calls}
+        mapin = None
+        if ok and rng.random() < 0.5:
+            try:
+                roots0 = list(b0.pipeline.topological_generations.root_args)
+                in0 = [[r_, pipegen.value_for(rng, r_)] for r_ in roots0]
+                img = {rho.get(k): v for k, v in in0}
+                in1 = [[n, img.get(n, "v_" + n.replace(".", "_"))] for n in pl.topological_generations.root_args]
+                if all(rho.get(k) in dict(in1) for k, _ in in0):
+                    mapin = [in0, in1]
+            except Exception:  # noqa: BLE001
+                mapin = None
+    return {"kind": "rewrite", "p": pd, "ops": ops, "calls": calls, "mapin": mapin}
 
 
 def _relabel(v, tag):
@@ -1174,6 +1200,7 @@ def distribution(c):
         for o in c["ops"]:
             d["op_" + ("unscope" if (o["op"] == "scope" and o["s"] is None) else o["op"])] = 1
         d["accepted"] = bool(c["calls"]) or None
+        d["map_mode"] = bool(c.get("mapin")) or None
         d["ncalls"] = min(len(c["calls"]), 12)
         d["conv"] = ("nested" if any(isinstance(v, dict) for x in c["calls"] for _, v in x["kw1"])
                      else "dotted" if any("." in k for x in c["calls"] for k, _ in x["kw1"]) else "plain")
